@@ -36,6 +36,9 @@ def main() -> int:
     except ModuleNotFoundError:
         print(f"ANALYSIS-ERROR property={prop} no rule module rules/{prop.lower()}.py")
         return 2
+    except Exception as e:  # a broken rule module is an analysis error (exit 2), never an exit-1 "violation"
+        print(f"ANALYSIS-ERROR property={prop} the rule module rules/{prop.lower()}.py cannot be loaded: {type(e).__name__}: {e}")
+        return 2
     try:
         repo = Repo(args.repo)
         rep.count("repo_digest", repo.digest[:16])
